@@ -6,7 +6,7 @@ PRE = r'''
 pub struct Name { pub id: Ghost<int> }
 pub struct ExprH { pub id: Ghost<int> }
 pub struct BlockH { pub id: Ghost<int> }
-pub struct LocalId { pub g: Ghost<int> }
+#[derive(Clone, Copy)] pub struct LocalId { pub g: Ghost<int> }
 pub struct SlotH { pub i: Ghost<int> }
 pub const DYNAMIC: u8 = 0;                                       // ValueType::Dynamic (types are opaque codes here)
 pub uninterp spec fn slot_of(v: &Name) -> int;                   // the scope-table entry lookup finds for this name (innermost declaration)
@@ -39,6 +39,31 @@ impl B {
         requires old(self).predeclared@
         ensures final(self).checked@ == old(self).checked@.push(s.id@), final(self).predeclared@, final(self).scope_depth@ == old(self).scope_depth@, final(self).var_depth@ == old(self).var_depth@, final(self).fn_depth@ == old(self).fn_depth@ { unimplemented!() }
 }
+
+// --- the binding records a name use leaves behind: which local a Var node / a {placeholder} refers to, and the reads liveness sees
+pub uninterp spec fn found(v: &Name) -> Option<int>;             // the local lookup_var_info finds for the name (innermost declaration: K under C04)
+pub struct Gb {
+    pub expr_binding: Ghost<Option<int>>,        // facts.record_expr_local(expr, local): the runtime resolves this node by id, not by name
+    pub seg_binding: Ghost<Map<int, int>>,       // facts.record_string_segment_local(expr, segment, local)
+    pub stmt_reads: Ghost<Set<int>>, pub cap_reads: Ghost<Set<int>>,
+}
+impl Gb {
+    #[verifier::external_body]
+    pub fn lookup_var_info(&self, v: &Name) -> (r: Option<(u8, LocalId)>) ensures (r is Some) == (found(v) is Some), r is Some ==> r->Some_0.1.g@ == found(v)->Some_0 { unimplemented!() }
+    #[verifier::external_body]
+    pub fn record_expr_local(&mut self, l: LocalId) ensures final(self).expr_binding@ == Some(l.g@), final(self).seg_binding@ == old(self).seg_binding@, final(self).stmt_reads@ == old(self).stmt_reads@, final(self).cap_reads@ == old(self).cap_reads@ { unimplemented!() }
+    #[verifier::external_body]
+    pub fn record_string_segment_local(&mut self, idx: u32, l: LocalId) ensures final(self).seg_binding@ == old(self).seg_binding@.insert(idx as int, l.g@), final(self).expr_binding@ == old(self).expr_binding@, final(self).stmt_reads@ == old(self).stmt_reads@, final(self).cap_reads@ == old(self).cap_reads@ { unimplemented!() }
+    // record_stmt_read / record_capture_read decide by the local's owner WHERE the read is noted (statement facts or the function's
+    // capture set); here only that each is told about the local
+    #[verifier::external_body]
+    pub fn record_stmt_read(&mut self, l: LocalId) ensures final(self).stmt_reads@ == old(self).stmt_reads@.insert(l.g@), final(self).expr_binding@ == old(self).expr_binding@, final(self).seg_binding@ == old(self).seg_binding@, final(self).cap_reads@ == old(self).cap_reads@ { unimplemented!() }
+    #[verifier::external_body]
+    pub fn record_capture_read(&mut self, l: LocalId) ensures final(self).cap_reads@ == old(self).cap_reads@.insert(l.g@), final(self).expr_binding@ == old(self).expr_binding@, final(self).seg_binding@ == old(self).seg_binding@, final(self).stmt_reads@ == old(self).stmt_reads@ { unimplemented!() }
+}
+// `u32::try_from(segment_idx).expect(..)`
+#[verifier::external_body]
+pub fn seg_index_u32(i: usize) -> (r: u32) requires i <= u32::MAX ensures r == i { unimplemented!() }
 
 // Ghost record of what the resolver was asked to do while checking ONE statement
 pub struct G {
@@ -75,7 +100,7 @@ CALLS = Rw("R9", r"self\.(check_expr|check_boolean_expr|check_block|lookup_var_i
 
 UNIT = VUnit(
     name="resolver_stmt",
-    props=["C09"],
+    props=["C09", "C04", "C03"],
     source="src/resolver.rs",
     preamble=PRE,
     trusted=["the resolver is a ghost record of the calls made while checking one statement; check_expr / check_boolean_expr / check_block / lookup_var_info are shims stating what each records",
@@ -133,6 +158,37 @@ UNIT = VUnit(
               rewrites=[CALLS, Rw("R13", r"self\.facts\.record_expr_local\(expr, local_id\);|self\.record_stmt_read\(local_id\);|self\.record_capture_read\(local_id\);", "", min_matches=3),
                         Rw("R6", r"self\.emit_error\(\s*\*span,\s*SemanticError::(\w+),.*?\}\],\s*\);?", r"{ e_\1 = true; }", min_matches=1)],
               real_name="Resolver::check_expr (Expr::Var arm)"),
+        # the same arm, for what it RECORDS (C04 / C03): the node is bound to exactly the local the lookup finds (the runtime then resolves it
+        # by id and cannot pick up a same-named variable of a caller), and both read recorders are told about that local
+        Block("var_binding", within="check_expr", impl="impl Resolver", arm=True,
+              anchor=r"Expr::Var\(v, span\) =>",
+              sig="fn var_binding(g: &mut Gb, v: &Name) -> (err: bool)",
+              prologue="    let mut e_UndeclaredIdentifier = false;", epilogue="    ;\n    e_UndeclaredIdentifier",
+              ensures=["err == (found(v) is None)",
+                       "found(v) is Some ==> final(g).expr_binding@ == Some(found(v)->Some_0) && final(g).stmt_reads@.contains(found(v)->Some_0) && final(g).cap_reads@.contains(found(v)->Some_0)",
+                       "found(v) is None ==> final(g).expr_binding@ == old(g).expr_binding@"],
+              rewrites=[Rw("R9", r"self\.lookup_var_info\(", "g.lookup_var_info(", min_matches=1),
+                        Rw("R9", r"self\.facts\.record_expr_local\(expr, local_id\);", "g.record_expr_local(local_id);", min_matches=0),
+                        Rw("R9", r"self\.facts\.record_string_segment_local\(\s*expr,\s*u32::try_from\(segment_idx\)\s*\.expect\(\"string segment index should fit in u32\"\),\s*local_id,?\s*\);", "g.record_string_segment_local(seg_index_u32(segment_idx), local_id);", min_matches=0),
+                        Rw("R9", r"self\.(record_stmt_read|record_capture_read)\(", r"g.\1(", min_matches=0),
+                        Rw("R6", r"self\.emit_error\(\s*\*span,\s*SemanticError::(\w+),.*?\}\],\s*\);?", r"{ e_\1 = true; }", min_matches=1)],
+              real_name="Resolver::check_expr (Expr::Var arm: binding and read records)"),
+        # a {placeholder}: bound, by its segment index, to exactly the local the lookup finds -- for own AND outer variables alike -- and
+        # both read recorders are told; UndeclaredIdentifier exactly when no such variable is in scope
+        Block("placeholder_binding", within="check_expr", impl="impl Resolver",
+              anchor=r"if let StringSegment::Variable\(var\) = segment ",
+              sig="fn placeholder_binding(g: &mut Gb, var: &Name, segment_idx: usize) -> (err: bool)",
+              prologue="    let mut e_UndeclaredIdentifier = false;", epilogue="    e_UndeclaredIdentifier",
+              requires=["segment_idx <= u32::MAX"],
+              ensures=["err == (found(var) is None)",
+                       "found(var) is Some ==> final(g).seg_binding@.contains_key(segment_idx as int) && final(g).seg_binding@[segment_idx as int] == found(var)->Some_0 && final(g).stmt_reads@.contains(found(var)->Some_0) && final(g).cap_reads@.contains(found(var)->Some_0)",
+                       "found(var) is None ==> final(g).seg_binding@ == old(g).seg_binding@"],
+              rewrites=[Rw("R9", r"self\.lookup_var_info\(", "g.lookup_var_info(", min_matches=1),
+                        Rw("R9", r"self\.facts\.record_expr_local\(expr, local_id\);", "g.record_expr_local(local_id);", min_matches=0),
+                        Rw("R9", r"self\.facts\.record_string_segment_local\(\s*expr,\s*u32::try_from\(segment_idx\)\s*\.expect\(\"string segment index should fit in u32\"\),\s*local_id,?\s*\);", "g.record_string_segment_local(seg_index_u32(segment_idx), local_id);", min_matches=0),
+                        Rw("R9", r"self\.(record_stmt_read|record_capture_read)\(", r"g.\1(", min_matches=0),
+                        Rw("R6", r"self\.emit_error\(\s*\*span,\s*SemanticError::(\w+),.*?\}\],\s*\);?", r"{ e_\1 = true; }", min_matches=1)],
+              real_name="Resolver::check_expr (Expr::String arm: one {placeholder})"),
         # a block: its three scopes (facts scope, variables, functions) are opened, the block's functions are hoisted into the NEW function
         # scope before any statement is checked (forward references), EVERY statement is checked, in order, and all three stacks are back
         # to their depth afterwards
